@@ -1509,7 +1509,9 @@ func UniqueInputFieldNamesRule(context *ValidationContext) *ValidationRuleInstan
 						}
 
 					}
-					return visitor.ActionSkip, nil
+					// keep descending: the value of this field may itself be (or
+					// contain) an input object whose field names must be unique
+					return visitor.ActionNoChange, nil
 				},
 			},
 		},
